@@ -31,7 +31,7 @@ type v06Real struct {
 func (r *v06Real) state(mode string, nrep int) (v06State, v06Other) {
 	st := v06State{Streams: v06Streams(r.srv), Groups: v06Groups(r.srv, r.groupIDs), LastPub: 0,
 		Disk: v06Disk(r.cfg.DataDir), Applied: r.srv.getRaft().getCommitIndex(), Mode: mode, Nrep: nrep,
-		Sref: v06Ref{Live: []string{}, Frozen: map[string][]v06Proto{}, Groups: map[string]v06SnapGroup{}}}
+		Sref: v06Ref{Live: []string{}, Frozen: map[string][]v06Proto{}, Heads: map[string]v06Head{}, Groups: map[string]v06SnapGroup{}}}
 	return st, v06Other{Streams: st.Streams, Groups: st.Groups}
 }
 
@@ -64,11 +64,13 @@ func (r *v06Real) apply(o map[string]interface{}) string {
 	switch vStr(o, "op") {
 	case "CreateStream":
 		s, n := vStr(o, "s"), int(vInt(o, "n"))
+		subj := vStrDef(o, "subj", s)
 		ps := make([]*proto.Partition, n)
 		for i := range ps {
-			ps[i] = &proto.Partition{Subject: s, Stream: s, Id: int32(i), ReplicationFactor: 1}
+			ps[i] = &proto.Partition{Subject: subj, Stream: s, Id: int32(i), ReplicationFactor: 1}
 		}
-		st := m.CreateStream(ctx, &proto.CreateStreamOp{Stream: &proto.Stream{Name: s, Subject: s, Partitions: ps}})
+		st := m.CreateStream(ctx, &proto.CreateStreamOp{Stream: &proto.Stream{Name: s, Subject: subj, Partitions: ps,
+			Config: v06Config(vStrDef(o, "cfg", "none"))}})
 		if st == nil {
 			v06WriteMarkers(r.cfg.DataDir, s, n, 1)
 			return ""
@@ -124,7 +126,7 @@ func TestVerifMetadataRealRestart(t *testing.T) {
 		emit := func(a, mode string, nrep int, args map[string]interface{}) {
 			st, ot := r.state(mode, nrep)
 			if a == "Open" {
-				st.Snap = &v06Snap{Streams: map[string][]v06Proto{}, Groups: map[string]v06SnapGroup{}}
+				st.Snap = &v06Snap{Streams: map[string][]v06Proto{}, Heads: map[string]v06Head{}, Groups: map[string]v06SnapGroup{}}
 			}
 			tw.Emit(v06Event{T: b.ID, A: a, Args: args, St: st, Other: ot, Obs: v06Obs{A: a}})
 		}
@@ -147,7 +149,7 @@ func TestVerifMetadataRealRestart(t *testing.T) {
 				}
 				// the state of a stopped process: nothing in memory, the directories
 				st := v06State{Streams: map[string]v06Stream{}, Groups: map[string]v12Group{}, Disk: v06Disk(cfg.DataDir),
-					Mode: "replay", Sref: v06Ref{Live: []string{}, Frozen: map[string][]v06Proto{}, Groups: map[string]v06SnapGroup{}}}
+					Mode: "replay", Sref: v06Ref{Live: []string{}, Frozen: map[string][]v06Proto{}, Heads: map[string]v06Head{}, Groups: map[string]v06SnapGroup{}}}
 				for _, g := range r.groupIDs {
 					st.Groups[g] = v12Group{}
 				}
